@@ -168,7 +168,8 @@ Fixpoint cwf (theta : subs) (t : term) {struct t} : bool :=
       match ex_param (Node l ks) with
       | Some p =>
           match lookup theta p with
-          | Some (VExpr v) => negb (is_wrap (tlabel v)) && negb (term_eqb v (mk_ex_param p))
+          | Some (VExpr v) => negb (is_wrap (tlabel v)) && negb (term_eqb v (mk_ex_param p)) &&
+                            is_expr_kind (tlabel v)
           | Some (VType _) => false
           | _ => true
           end
